@@ -24,6 +24,12 @@ K10 = 45000
 CAPPED = [['love'] * K10 + ['dove'] * 40 + ['hove'] * 15 + ['move', 'lovx'],      # initial n-grams at levels 0, 1, 2 and 5
           ['love'] * K10 + ['lovx'], ['ab'] * K10 + ['aa'], ['love'] * K10 + ['lovx', 'lovey', 'ilove'], ['aba'] * K10 + ['abb', 'ab', 'ba']]
 
+# 1 444 passwords with 1 444 different beginnings (n-gram 3): every initial n-gram has a share below 0.147 %, so the cheapest initial level is 1, not 0
+_AL38 = 'abcdefghijklmnopqrstuvwxyz0123456789!@'
+SPREAD = [x + y + _AL38[(7 * i + 3 * j) % 38] for i, x in enumerate(_AL38) for j, y in enumerate(_AL38)]
+# ... 556 of the beginnings a second time (with another third character, some in a four-character password): initial n-grams on levels 1 and 2
+SPREAD += [x + y + _AL38[(5 * i + j + 1) % 38] + ('a' if (i + j) % 9 == 0 else '') for i, x in enumerate(_AL38[:15]) for j, y in enumerate(_AL38)][:556]
+
 
 def rle(lines):
     out = []
@@ -57,6 +63,7 @@ def trainings(tier):
     for l in CAPPED:
         for ng in (2, 3, 4):
             yield l, dict(ngram=ng, alphabet_size=10, coverage=0.5)
+    yield SPREAD, dict(ngram=3, alphabet_size=100, coverage=0.5)
     if tier == 'thorough':
         # every pair of strings over {a,b} of length 4..6 (dead ends, shared prefixes, cycles), alphabet large enough for both letters
         words = [''.join(t) for n in (4, 5, 6) for t in itertools.product('ab', repeat=n)]
